@@ -209,6 +209,11 @@ fn parse_week_date_components(s: &str) -> Option<(i32, u32, u32)> {
         return Some((year, week, 1));
     }
 
+    // The compact forms below slice by byte offsets.
+    if !s.is_ascii() {
+        return None;
+    }
+
     if s.len() == 8 && s.chars().nth(4) == Some('W') {
         let year: i32 = s[0..4].parse().ok()?;
         let week: u32 = s[5..7].parse().ok()?;
